@@ -25,10 +25,16 @@ import (
 	"strings"
 )
 
-const (
-	repo     = "/repo"
-	shimPath = "github.com/bytedance/sonic/loader/vshim"
-)
+const shimPath = "github.com/bytedance/sonic/loader/vshim"
+
+// repo is /repo; VERIF_REPO relocates it (maintainer-side: background batches run against a
+// snapshot of /repo's HEAD while seeded changes are being tried in /repo itself)
+var repo = func() string {
+	if r := os.Getenv("VERIF_REPO"); r != "" {
+		return r
+	}
+	return "/repo"
+}()
 
 var verif = func() string {
 	if r := os.Getenv("VERIF_ROOT"); r != "" {
